@@ -104,6 +104,17 @@ def main():
     seed = int(os.environ.get('VERIF_SEED', '1') or 1)
     warnings.simplefilter('ignore')
 
+    if os.environ.get('VF_NO_BOTTLENECK') == '1':
+        sys.modules['bottleneck'] = None   # optional accelerator disabled
+    if a.replay and os.environ.get('VF_NO_BOTTLENECK') != '1':
+        with open(a.replay) as f:
+            rec = json.load(f)
+        if (rec.get('info') or {}).get('accel') == 'numpy':
+            # the case was found with the accelerator disabled
+            env = dict(os.environ, VF_NO_BOTTLENECK='1')
+            os.execve(sys.executable, [sys.executable, '-m', 'vf.run']
+                      + sys.argv[1:], env)
+
     from vf import build
     build.ensure()
 
